@@ -334,9 +334,9 @@ type quiet struct {
 
 // quiesce waits for the server to come to rest and reports what is left behind.  base is the
 // set of goroutine signatures (with their counts) that exist in an idle server.
-func quiesce(base map[string]int, fxs ...*fx) quiet {
+func quiesce(base map[string]int, wait time.Duration, fxs ...*fx) quiet {
 	var q quiet
-	deadline := time.Now().Add(6 * time.Second)
+	deadline := time.Now().Add(wait)
 	for {
 		q = quiet{}
 		if l := mon.inflightList(); len(l) > 0 {
